@@ -19,7 +19,7 @@ BOUNDED = ['lfu', 'lru', 'mru', 'rr']
 
 B3 = ['lfu', 'lru', 'mru', 'rr'] * 3
 SPECS = {
-    'C01': dict(quick=(1100, 70), thorough=(60000, 110), focus={'p_twin': 0.3, 'p_digits': 0.15}),
+    'C01': dict(quick=(1100, 70), thorough=(60000, 110), focus={'p_twin': 0.3, 'p_digits': 0.15, 'weights': {'memclear': 1.5}}),
     'C02': dict(quick=(1000, 70), thorough=(60000, 110),
                 focus={'weights': {'clear': 0.5, 'setarch': 0.5, 'archived': 0.5, 'archset': 6}, 'p_prologue': 0.5,
                        'p_detach': 0.03, 'p_restage': 0.03, 'algs': ['no', 'inf'] + B3,
